@@ -14,6 +14,8 @@ THEOREMS = ["Gozod.C18." + t for t in [
     "c18_wired_partial", "c18_all_sites_partial", "c18_wired_full_false", "gap_breaks_priority",
     "c18_base_nonempty", "c18_locales", "c18_locales_cover",
     "setconfig_history", "setconfig_keeps_locale", "setconfig_keeps_custom", "crossed_setconfig_breaks_history",
+    "site_priority", "dropSources_unconfigured", "c18_sites_partial", "c18_sites_all_partial", "c18_sites_full_false", "c18_static_dynamic",
+    "c18_locales_producible", "dep_spec", "dep_site", "nested_message", "c18_every_depth", "c18_positions_exact",
 ]]
 
 GEN = os.path.join(C.LEAN, "Gozod", "Gen")
@@ -68,6 +70,80 @@ def gen_wiring(sites):
         rows.append("  ⟨%s, %s, %s, %s, %s, %s, %s⟩" % (lean_str(d["leaf"]), lean_str(d["wrapper"]), lean_str(d["kind"]),
                                                        srcset(d["appl"]), srcset(d["passes"]), lean_str(d["base"]), srcset(d["passes2"])))
     out.append(",\n".join(rows))
+    out += ["]", "", "/-- the one-level positions of the run; forwardsCtx = no leaf loses the per-parse map there relative to top level -/",
+            "def positions : List Position := ["]
+    out.append(",\n".join("  ⟨%s, %s⟩" % (lean_str(w), "true" if fw else "false") for w, fw in positions(sites).items()))
+    out += ["]", "", "/-- leaf ↦ (sources passed at top level, sources passed under a silent check function) -/",
+            "def topPasses : List (String × SrcSet × SrcSet) := ["]
+    out.append(",\n".join("  (%s, %s, %s)" % (lean_str(d["leaf"]), srcset(d["passes"]), srcset(d["passes2"]))
+                          for d in sites.values() if d["wrapper"] == "top"))
+    out += ["]", "", "end Gozod.Gen", ""]
+    return "\n".join(out)
+
+def positions(sites):
+    top = {d["leaf"]: d for d in sites.values() if d["wrapper"] == "top"}
+    pos = collections.OrderedDict()
+    for d in sites.values():
+        if ">" in d["wrapper"]: continue
+        fw = not ("p" in top[d["leaf"]]["passes"] and "p" not in d["passes"])
+        pos[d["wrapper"]] = pos.get(d["wrapper"], True) and fw
+    return pos
+
+def read_sites(path):
+    d = json.load(open(path))
+    return d["sites"], d.get("helpers", {}), d.get("locale_keys", {})
+
+def site_drops(s):
+    """the same function as Gozod.Msg.IssueSite.drops (used to aim the run when the proof over the table breaks)"""
+    if s["msg"] == "preset": return "spgl"
+    reaches = s["class"] in ("finalize", "helper")
+    r = ""
+    if reaches and s["inst"] == "unset" and not s["file"].startswith("internal/issues/"): r += "s"
+    if (reaches or s["class"] in ("nested", "ctxcopy")) and s["ctx"] != "caller": r += "p"
+    if reaches and s["cfg"] not in ("fallback", "global", "param"): r += "gl"
+    return r
+
+def attach_reach(static, reach_path):
+    """reach.txt (leaf@wrapper, caller of FinalizeIssue, first frame outside internal/issues) → site['reached']"""
+    byfile = collections.defaultdict(list)
+    for s in static:
+        s["reached"] = []
+        if s["class"] in ("finalize", "helper"): byfile[s["file"]].append(s)
+    def find(loc):
+        if loc == "-" or ":" not in loc: return None
+        f, ln = loc.rsplit(":", 1); ln = int(ln)
+        c = [s for s in byfile.get(f, []) if s["line"] <= ln <= s["end"]]
+        return min(c, key=lambda s: s["end"] - s["line"]) if c else None
+    unmatched, reach = [], {}
+    for line in open(reach_path):
+        line = line.rstrip("\n")
+        if not line: continue
+        site, fin, outer = line.split("\t")
+        reach[site] = (fin, outer)
+        if not site.endswith("@top"): continue
+        leaf = site.split("@")[0]
+        for loc in {fin, outer}:
+            if loc == "-": continue
+            st = find(loc)
+            if st is None: unmatched.append("%s %s" % (site, loc))
+            elif leaf not in st["reached"]: st["reached"].append(leaf)
+    return reach, unmatched
+
+def gen_issue_sites(static, seen):
+    out = ["-- GENERATED on every run by vlib/c18.py from the go/ast translator harness/cmd/c18/sites.go (source of REPO) and, for the",
+           "-- `reached` column and `leafSeen`, from the run (which FinalizeIssue call resolved each leaf's message; the raw issue the",
+           "-- error maps were shown).  Do not edit.",
+           "import Gozod.Model.Msg", "namespace Gozod.Gen", "open Gozod.Msg", "", "def issueSites : List IssueSite := ["]
+    rows = []
+    for s in static:
+        rows.append("  ⟨%s, %s, %d, %s, %s, %s, %s, %s, %s, %s, %s, [%s]⟩" % (
+            lean_str(s["key"]), lean_str(s["key"].rsplit("#", 1)[0]), s["line"], "true" if s["file"].startswith("internal/issues/") else "false",
+            lean_str(s["class"]), lean_str(s["code"]), lean_str(s["param"]), lean_str(s["ctx"]), lean_str(s["cfg"]), lean_str(s["inst"]),
+            lean_str(s["msg"]), ", ".join(lean_str(x) for x in s["reached"])))
+    out.append(",\n".join(rows))
+    out += ["]", "", "/-- leaf@position ↦ features of the raw issue the message sources are shown there -/", "def leafSeen : List (String × RawFeat) := ["]
+    out.append(",\n".join("  (%s, ⟨%s, %s, %s⟩)" % (lean_str(l), lean_str(c), "true" if a == "1" else "false", "true" if b == "1" else "false")
+                          for l, c, a, b, _ in seen))
     out += ["]", "", "end Gozod.Gen", ""]
     return "\n".join(out)
 
@@ -80,17 +156,46 @@ def read_locales(path):
         table.setdefault(loc, []).append((kind, ok == "1"))
     return table
 
-def gen_locales(table):
-    out = ["-- GENERATED on every run by vlib/c18.py: for every bundled locale (locales.DefaultLocales) and every issue kind",
-           "-- of the catalogue (kinds raised by the site catalogue + every format / origin the locales name + every bare code),",
-           "-- whether the locale's formatter returned a non-empty message.  Do not edit.",
-           "namespace Gozod.Gen", "", "def localeTable : List (String × List (String × Bool)) := ["]
+def gen_locales(table, producible):
+    kinds = [k for k, _ in next(iter(table.values()))]
+    out = ["-- GENERATED on every run by vlib/c18.py: for every bundled locale (locales.DefaultLocales) and every entry of the",
+           "-- parameter table (harness/cmd/c18/deep.go localeParams: every variation that selects another text path of a formatter,",
+           "-- over the dictionary keys / switch cases the translator reads from locales/*.go and the origins / formats / types the",
+           "-- library's creation sites name; plus the raw issues captured from the real sites), whether the formatter returned a",
+           "-- non-empty message.  `localeKinds` = the columns, one Bool row per locale.  `producibleKinds` = the (code, origin /",
+           "-- format / expected) pairs the static catalogue of creation sites names, as keys of the columns.  Do not edit.",
+           "namespace Gozod.Gen", "", "def localeKinds : List String := ["]
+    out.append(",\n".join("  " + lean_str(k) for k in kinds))
+    out += ["]", ""]
     rows = []
-    for loc, cells in table.items():
-        rows.append("  (%s, [%s])" % (lean_str(loc), ", ".join("(%s, %s)" % (lean_str(k), "true" if ok else "false") for k, ok in cells)))
+    for i, (loc, cells) in enumerate(table.items()):
+        if [k for k, _ in cells] != kinds: raise RuntimeError("locale rows differ in their columns")
+        out.append("def localeRow%d : List Bool := [%s]" % (i, ", ".join("true" if ok else "false" for _, ok in cells)))
+        rows.append("  (%s, localeRow%d)" % (lean_str(loc), i))
+    out += ["", "def localeRows : List (String × List Bool) := ["]
     out.append(",\n".join(rows))
+    out += ["]", "", "def producibleKinds : List String := ["]
+    out.append(",\n".join("  " + lean_str(k) for k in producible))
     out += ["]", "", "end Gozod.Gen", ""]
     return "\n".join(out)
+
+def producible_kinds(static):
+    """the columns of the parameter table that the library's creation sites can produce (code + literal origin/format/type)"""
+    ks = set()
+    for s in static:
+        if s["class"] == "nested": continue
+        for code in s["code"].split("|"):
+            p = s["param"].replace(" ", "_")
+            if code == "invalid_type": ks.add("invalid_type:%s:in-string" % p if p else "invalid_type:bare")
+            elif code in ("too_small", "too_big"): ks.add("%s:%s:th1:inc1" % (code, p))
+            elif code == "invalid_format": ks.add("invalid_format:%s:det0" % p)
+            elif code in ("invalid_key", "invalid_element"): ks.add("%s:%s" % (code, p))
+            elif code == "not_multiple_of": ks.add("not_multiple_of:div1")
+            elif code == "unrecognized_keys": ks.add("unrecognized_keys:n1")
+            elif code == "invalid_value": ks.add("invalid_value:n2")
+            elif code == "invalid_union": ks.add("invalid_union:errors")
+            elif code in ("custom", "missing_required", "type_conversion", "invalid_schema", "incompatible_types"): ks.add(code + ":props")
+    return sorted(ks)
 
 SITES = {}
 
@@ -102,20 +207,34 @@ def key(op, impl, M, S):
     d = SITES.get(site, {})
     if ">" in site:   # outer>inner: the model's entry is the inner wrapper's
         d = SITES.get(site.split("@")[0] + "@" + site.split(">")[-1], d)
+    if "@" in site and t[1] in ("wire", "silent", "dep") and impl not in ("panic", "n") and impl == M:
+        # a position that does not forward the context: one class per position, not per leaf
+        pos = positions(SITES)
+        chain = site.split("@")[1].split(">")
+        nf = [w for w in chain if pos.get(w) is False]
+        topd = SITES.get(site.split("@")[0] + "@top", {})
+        cfg = t[6] if t[1] in ("wire", "silent") else "".join(ch for ch, k in zip(PRI, t[3]) if k != "-")
+        lost = "p" not in d.get("passes", "") or any(pos.get(w) is False for w in chain[:-1])
+        if nf and "p" in topd.get("passes", "") and lost and "p" in cfg:
+            return "wire:@%s:missing-p" % nf[0]
     if t[1] == "hist" and impl != M:
         # the stored global configuration is not what the history of SetConfig calls denotes
         return "hist:%s:model-differs" % d.get("leaf", site)
+    if t[1] == "dep" and impl != M:
+        # issue-dependent error maps: the implementation leaves the chain the model proves (or a map was shown another issue)
+        return "dep:%s:model-differs" % d.get("leaf", site)
     if t[1] == "silent" and impl != M:
         # message functions / a source answering "": the implementation leaves the priority chain the model proves
         return "silent:%s:model-differs" % d.get("leaf", site)
     if impl in ("panic", "n"):
         return "wire:%s:%s" % (site, {"panic": "panic", "n": "issue-not-reported"}[impl])
-    k = "wire:%s:missing-%s" % (d.get("leaf", site), d.get("missing", "?") or "none")
+    topd = SITES.get(site.split("@")[0] + "@top", d)     # the leaf's class: its gap at top level (the same at every position: c18_positions_exact)
+    k = "wire:%s:missing-%s" % (d.get("leaf", site), topd.get("missing", "?") or "none")
     return k if impl == M else k + ":model-differs"
 
 def describe(op):
     t = C.op_body(op).split(" ")
-    if t[1] in ("loc", "hist"):
+    if t[1] in ("loc", "hist", "dep"):
         return C.op_comment(op).strip()
     return ("%s; configured sources %s of applicable %s (c = check message \"CHK\", s = schema message \"SCH\", p = ParseContext{Error: →\"CTX\"}, "
             "g = SetConfig(CustomError: →\"CUS\"), l = SetConfig(LocaleError: →\"LOC\")); observed = which sentinel is ZodIssue.Message (d = built-in text)"
@@ -130,7 +249,26 @@ def run(res):
         return res.finish()
     rundir = os.path.join(C.BUILD, "run", "C18-%s-%d" % (res.tier, os.getpid()))
     shutil.rmtree(rundir, ignore_errors=True); os.makedirs(rundir)
-    rc, out = C.run([C.harness_bin("C18"), "-seed", str(res.seed), "-tier", res.tier, "-out", rundir], env=C.goenv(), timeout=3600)
+    # 1a. the go/ast translator: every call in REPO's source that creates an issue or reaches FinalizeIssue
+    rc, out = C.run([C.harness_bin("C18"), "-out", rundir, "gen-sites", C.REPO], env=C.goenv(), timeout=600)
+    if rc != 0:
+        C.tie_broken(res, "translator C18/issue sites", "the go/ast translator failed (rc=%d):\n%s" % (rc, out[-3000:]))
+        return res.finish()
+    static, helpers, lkeys = read_sites(os.path.join(rundir, "sites.json"))
+    groups = {g: set(ks) for g, ks in lkeys.items()}
+    groups.setdefault("origins", set())
+    for st in static:     # the origins / formats / types the creation sites name join the locale parameter table
+        if not st["param"]: continue
+        for code in st["code"].split("|"):
+            g = {"invalid_type": "types", "too_small": "sizable", "too_big": "sizable", "invalid_format": "formats",
+                 "invalid_key": "origins", "invalid_element": "origins"}.get(code)
+            if g: groups[g].add(st["param"])
+    with open(os.path.join(rundir, "kinds.txt"), "w") as f:
+        for g in sorted(groups):
+            for k in sorted(groups[g]): f.write("%s\t%s\n" % (g, k))
+    # 1b. the behavioural extraction
+    rc, out = C.run([C.harness_bin("C18"), "-seed", str(res.seed), "-tier", res.tier, "-out", rundir, "kinds=" + os.path.join(rundir, "kinds.txt")],
+                    env=C.goenv(), timeout=3600)
     if rc != 0:
         C.tie_broken(res, "translator C18/harness", "harness failed (rc=%d):\n%s" % (rc, out[-4000:]))
         return res.finish()
@@ -139,9 +277,15 @@ def run(res):
     if len(SITES) < 300 or len(loc) < 30:
         C.tie_broken(res, "translator C18/tables", "the extraction found only %d sites / %d locales" % (len(SITES), len(loc)))
         return res.finish()
+    reach, unmatched = attach_reach(static, os.path.join(rundir, "reach.txt"))
+    if unmatched:
+        C.tie_broken(res, "translator C18/reach", "FinalizeIssue was reached from calls the go/ast translator does not list:\n" + "\n".join(unmatched[:20]))
+        return res.finish()
+    seen = [l.rstrip("\n").split("\t") for l in open(os.path.join(rundir, "seen.txt")) if l.strip()]
     ch1 = write_if_changed(os.path.join(GEN, "MsgWiring.lean"), gen_wiring(SITES))
-    ch2 = write_if_changed(os.path.join(GEN, "LocaleTable.lean"), gen_locales(loc))
-    res.notes.append("Gen/MsgWiring.lean %s, Gen/LocaleTable.lean %s" % ("rewritten" if ch1 else "unchanged", "rewritten" if ch2 else "unchanged"))
+    ch2 = write_if_changed(os.path.join(GEN, "LocaleTable.lean"), gen_locales(loc, producible_kinds(static)))
+    ch3 = write_if_changed(os.path.join(GEN, "IssueSites.lean"), gen_issue_sites(static, seen))
+    res.notes.append("Gen/MsgWiring.lean %s, Gen/LocaleTable.lean %s, Gen/IssueSites.lean %s" % tuple("rewritten" if c else "unchanged" for c in (ch1, ch2, ch3)))
 
     # 2. the driver (model + regenerated tables) decides every cell; failing cells carry their concrete input
     okd, outd = C.lake_build(["driver_c18"])
